@@ -186,7 +186,12 @@ func Start(toml string) (*Server, error) {
 
 // DataDir is the per-process honeytrap data directory. Init must have been
 // called outside any bubble first (badger writes cannot run inside one).
-func DataDir() string { return filepath.Join(ScratchDir(), "data") }
+func DataDir() string {
+	if d := os.Getenv("VF_DATADIR"); d != "" {
+		return d
+	}
+	return filepath.Join(ScratchDir(), "data")
+}
 
 // Init opens the data directory (and with it the process-global badger store)
 // the way cmd/honeytrap does. Call it once, outside the bubble.
